@@ -84,6 +84,12 @@ func applyServiceExtends(ctx context.Context, name string, services map[string]a
 		processor PostProcessor
 	)
 
+	// track the service together with the file which defines it
+	tracker, err = tracker.Add(filename, name)
+	if err != nil {
+		return nil, err
+	}
+
 	if file != nil {
 		refFilename, ok := file.(string)
 		if !ok {
@@ -94,7 +100,8 @@ func applyServiceExtends(ctx context.Context, name string, services map[string]a
 		if err != nil {
 			return nil, err
 		}
-		filename = refFilename
+		// the base service, and whatever it extends, is defined by this other file
+		ctx = context.WithValue(ctx, consts.ComposeFileKey{}, refFilename)
 	} else {
 		_, ok := services[ref]
 		if !ok {
@@ -102,12 +109,6 @@ func applyServiceExtends(ctx context.Context, name string, services map[string]a
 		}
 	}
 
-	tracker, err = tracker.Add(filename, name)
-	if err != nil {
-		return nil, err
-	}
-
-	// recursively apply `extends`
 	base, err = applyServiceExtends(ctx, ref, services, opts, tracker, post...)
 	if err != nil {
 		return nil, err
